@@ -129,8 +129,14 @@ WorldChecks(w) ==
   /\ Chk("C02", "entries-entry", \A id \in DOMAIN wo.probes :
                                wo.probes[id].ee = (id \in DOMAIN ents))
   /\ Chk("HARNESS", "probes-cover-issued", issued'[w] \subseteq DOMAIN wo.probes)
+  /\ Chk("C02", "identifier-resolves-to-another-entity",
+         \A id \in (DOMAIN wo.probes) \cap (DOMAIN ents) :
+            wo.probes[id].via = [c \in (DOMAIN ents[id]) \cap {"S", "W", "H"} |-> ents[id][c].t])
   /\ Chk("C02", "live-id-not-issued", DOMAIN ents \subseteq issued'[w])
   /\ \A k \in DOMAIN sc : Chk("C13", sc[k][1], sc[k][2] \/ PreBroken(w, k))
+  \* an identifier resolves to the row its slot points at: the storage-level reading of C02
+  /\ Chk("C02", "identifier-location-points-at-another-row",
+         (SlotToRow(d) /\ RowToSlot(d)) \/ PreBroken(w, 3) \/ PreBroken(w, 4))
   /\ Chk("C13", "len-vs-dump", d.len = wo.len)
   /\ Chk("C13", "stored-ids=public-ids", StoredIds(d) = DOMAIN ents)
   /\ Chk("C13", "accepted-ids=public-ids", AcceptedIds(d) = DOMAIN ents)
@@ -374,9 +380,21 @@ OpPanicked ==
   /\ Chk("C01", "operation-panicked:" \o E.was, FALSE)
   /\ issued' = [w \in Worlds |-> {}]
 
-Step ==
-  /\ l <= NRec
-  /\ l' = l + 1
+(* a crash of the driver process inside a library call (abort, segfault): recorded by the
+   wrapper as a final event; `light` events carry only the structural dumps *)
+CrashStep ==
+  /\ Chk("C01", "operation-crashed:" \o E.was, FALSE)
+  /\ Chk("C05", "process-crashed-in-safe-call:" \o E.was, FALSE)
+  /\ UNCHANGED <<issued, tok, cnt, twin>>
+LightStep ==
+  /\ \A w \in Worlds : PostWs[w].live =>
+        LET sc == Checks(PostWs[w].dump) IN
+        /\ \A k \in DOMAIN sc : Chk("C13", sc[k][1], sc[k][2] \/ PreBroken(w, k))
+        /\ Chk("C02", "identifier-location-points-at-another-row",
+               (sc[3][2] /\ sc[4][2]) \/ PreBroken(w, 3) \/ PreBroken(w, 4))
+  /\ UNCHANGED <<issued, tok, cnt, twin>>
+
+FullStep ==
   /\ CASE E.op = "insert" -> OpInsert
        [] E.op = "extend" -> OpExtend
        [] E.op = "remove" -> OpRemove
@@ -407,6 +425,13 @@ Step ==
   /\ EqChecks
   /\ MirrorChecks
   /\ twin' = TwinNext
+
+Step ==
+  /\ l <= NRec
+  /\ l' = l + 1
+  /\ IF E.op = "crashed" THEN CrashStep
+     ELSE IF "light" \in DOMAIN E THEN LightStep
+     ELSE FullStep
 
 Init == /\ l = 1
         /\ issued = [w \in Worlds |-> {}]
